@@ -30,6 +30,9 @@ ASSUMPTIONS = [
     "stream sizes below 2^32 (the model's lists; version-4 files may declare more)",
     "the reader is a Cursor over the whole file (std::io::Read returning everything up to EOF)",
     "MS-CFB 2.6.4 order for the legal trees: UTF-16 length, then code units with a-z upper-cased only; node colours not modelled, all black",
+    "names compare up to the case of the ASCII letters, for the lookup (str::eq_ignore_ascii_case since the fix of CFB-1) as for the "
+    "uniqueness of names in a storage; the simple case conversion of other letters (MS-CFB 2.6.4, Unicode version depending on the writer) "
+    "is not applied by the reader and not demanded: names differing only in the case of a non-ASCII letter count as different",
     "a root STORAGE named Workbook (or Book) is outside the domain of the Xls::new statements (the code takes any root entry of that name, "
     "storage or stream; Properties/C13.v states the hypothesis): generated, model tie only",
 ]
@@ -57,6 +60,25 @@ def cfb_key(s):
 def ukey(s):
     """a name up to the case of a-z: two names of one storage must differ in this key to be sortable"""
     return "".join(chr(ord(ch) - 32) if "a" <= ch <= "z" else ch for ch in s)
+
+def recase(rng, n):
+    """another case spelling of a name (CFB-1: MS-CFB 2.6.4 compares names after upper-casing; the reader folds the
+    ASCII letters): all upper (what POI-style writers store: WORKBOOK, BOOK), all lower, or letter by letter"""
+    k = rng.random()
+    if k < 0.4:
+        return "".join(ch.upper() if "a" <= ch <= "z" else ch for ch in n)
+    if k < 0.6:
+        return "".join(ch.lower() if "A" <= ch <= "Z" else ch for ch in n)
+    return "".join((ch.swapcase() if ("a" <= ch <= "z" or "A" <= ch <= "Z") and rng.random() < 0.5 else ch) for ch in n)
+
+def recase_case(rng, c, p=0.5):
+    """re-spell the stored names of a container (uniqueness per storage is up to case: it is kept)"""
+    c.storages = [recase(rng, n) if rng.random() < p else n for n in c.storages]
+    c.streams = [((recase(rng, n) if rng.random() < p else n), b) for n, b in c.streams]
+    c.recased = True
+
+def same_name(a, b):
+    return ukey(a) == ukey(b)
 
 def gen_name(rng, used):
     """a fresh name; `used` holds the ukey of every name taken so far (global uniqueness, case of a-z ignored)"""
@@ -300,6 +322,8 @@ def nslots_of(c):
 
 def finish_case(rng, c, mode=None, force_nfat=None, surplus=True, random_slots=0.0, linkmode=None):
     """layout + links for a case whose storages / streams / parents are set"""
+    if rng.random() < 0.3:
+        recase_case(rng, c)
     c.lay = gen_layout(rng, c.ss, c.storages, c.streams, mode=mode, force_nfat=force_nfat, surplus=surplus)
     n = len(c.storages) + len(c.streams)
     if random_slots and rng.random() < random_slots:
@@ -376,7 +400,7 @@ def resolve(c, path):
     p = 0
     obj = None
     for nm in path:
-        ks = [k for k in range(len(names)) if names[k] == nm and c.parents[k] == p]
+        ks = [k for k in range(len(names)) if same_name(names[k], nm) and c.parents[k] == p]
         if not ks:
             return "none"
         obj = ks[0]
@@ -406,7 +430,12 @@ def ops_for(rng, c, absent=True):
     slots = c.lay["slots"]
     ops = []
     def count(nm):
-        return sum(1 for x in names if x == nm)
+        return sum(1 for x in names if same_name(x, nm))
+    def index(nm):
+        return [k for k, x in enumerate(names) if same_name(x, nm)][0]
+    def respell(path):
+        # the path asked for in another case spelling than the file stores
+        return [recase(rng, n) for n in path] if rng.random() < 0.35 else path
     def exp_g(path):
         if reg == "tree":
             o = resolve(c, path)
@@ -417,17 +446,17 @@ def ops_for(rng, c, absent=True):
             return "ok:" + c.streams[o - nst][1].hex()
         if reg == "flat" and path:
             nm = path[-1]
-            if nm in ("Root Entry", ""):
+            if same_name(nm, "Root Entry") or nm == "":
                 return None
             if count(nm) == 0:
                 return "err:notfound"
-            if count(nm) == 1 and names.index(nm) >= nst:
-                return "ok:" + c.streams[names.index(nm) - nst][1].hex()
+            if count(nm) == 1 and index(nm) >= nst:
+                return "ok:" + c.streams[index(nm) - nst][1].hex()
         return None
     def exp_p(path):
         if reg == "tree":
             return "0" if resolve(c, path) == "none" else "1"
-        if reg == "flat" and path and path[-1] not in ("Root Entry", ""):
+        if reg == "flat" and path and path[-1] != "" and not same_name(path[-1], "Root Entry"):
             return "1" if count(path[-1]) else "0"
         return None
     # children of the root and of every storage
@@ -442,13 +471,15 @@ def ops_for(rng, c, absent=True):
     ops.append(("c", str(rng.choice([nslots_of(c), nslots_of(c) + 7, 4294967295])), "set:"))
     # has_directory: an entry of the root storage
     for nm in dict.fromkeys(names):
+        nm = respell([nm])[0]
         ops.append(("h", nm, exp_p([nm])))
     for k in range(nst):
-        ops.append(("p", names_path(c, k), exp_p(names_path(c, k))))
+        path = respell(names_path(c, k))
+        ops.append(("p", path, exp_p(path)))
     order = list(range(nst, len(names)))
     rng.shuffle(order)
     for k in order:
-        path = names_path(c, k)
+        path = respell(names_path(c, k))
         if rng.random() < 0.5:
             ops.append(("p", path, exp_p(path)))
         ops.append(("g", path, exp_g(path)))
@@ -458,6 +489,12 @@ def ops_for(rng, c, absent=True):
         if rng.random() < 0.2:
             q = path[:-1] + ["No Such Stream"] if rng.random() < 0.5 else ["No Such Storage"] + path
             ops.append(("g", q, exp_g(q)))
+        # a letter outside ASCII in the other case (Ü / ü): MS-CFB 2.6.4 would fold it, the reader (and the model)
+        # do not: nothing is demanded either way, model and code must agree
+        q = [("".join(ch.swapcase() if ord(ch) > 127 and len(ch.swapcase()) == 1 else ch for ch in n)) for n in path]
+        if q != path and rng.random() < 0.5:
+            ops.append(("g", q, None))
+            c.nodemand = getattr(c, "nodemand", set()) | {tuple(q)}
     if order and rng.random() < 0.5:           # read again (sector cache already filled)
         path = names_path(c, order[0])
         ops.append(("g", path, exp_g(path)))
@@ -500,7 +537,7 @@ def root_workbook(c):
     """bytes of the stream Excel means: Workbook of the root storage, else Book of the root storage; "storage" when the
     root holds a STORAGE of the name asked first (outside the domain of the statement)"""
     nst = len(c.storages)
-    for nm in ("Workbook", "Book"):
+    for nm in ("Workbook", "Book"):                # (resolve compares up to case: WORKBOOK, BOOK ... count)
         o = resolve(c, [nm])
         if o == "none":
             continue
@@ -555,7 +592,7 @@ def check_written(ctx, c, line):
                 ctx.disagreements.append({"function": nm + "(generator)", "case": line[:20000], "impl": "(n/a)",
                                           "model": "%s=%d for links the generator wrote in mode %s (%d objects)" % (nm, g, c.linkmode, n)})
     names = all_names(c)
-    if c.unique != (len(set(names)) == len(names)):
+    if c.unique != (len(set(ukey(x) for x in names)) == len(names)):        # names_uniqueb: up to case
         ctx.disagreements.append({"function": "names_uniqueb(generator)", "case": line[:20000], "impl": "(n/a)",
                                   "model": "unique=%d, generator: %d distinct names of %d" % (c.unique, len(set(names)), len(names))})
     return ok
@@ -578,7 +615,7 @@ def check_w(ctx, c, w_ans, line):
         ctx.count("w:root_storage_named_workbook(out of domain)")
         return
     ctx.count("w:root_workbook_read")
-    others = sum(1 for n in all_names(c) if n in ("Workbook", "Book")) - 1
+    others = sum(1 for n in all_names(c) if ukey(n) in ("WORKBOOK", "BOOK")) - 1
     if others:
         ctx.count("w:root_workbook_read_among_%s_other_Workbook_or_Book" % ("1" if others == 1 else "2+"))
     exp = "ok:" + rw.hex()
@@ -634,6 +671,8 @@ def run_cases(ctx, cases, rng):
         reg = regime(c)
         ctx.traces += 1
         ctx.count("tag:" + c.tag)
+        if getattr(c, "recased", False):
+            ctx.count("names:stored_in_another_case")
         ctx.count("links:" + c.linkmode + ("(" + c.damage + ")" if getattr(c, "damage", None) else ""))
         ctx.count("regime:" + reg)
         ctx.count("sector_size:%d" % c.ss)
@@ -659,7 +698,7 @@ def run_cases(ctx, cases, rng):
         nst = len(c.storages)
         # duplicate names: how they sit (the statistics the evidence shows)
         for nm in set(names):
-            objs = [k for k, x in enumerate(names) if x == nm]
+            objs = [k for k, x in enumerate(names) if same_name(x, nm)]
             if len(objs) > 1 and reg == "tree":
                 ds = sorted(depth_of(c, k) for k in objs)
                 ctx.count("dup:same_depth" if ds[0] == ds[1] else "dup:different_depth")
@@ -667,9 +706,10 @@ def run_cases(ctx, cases, rng):
                 low = min(objs, key=lambda k: c.lay["slots"][k])
                 ctx.count("dup:closest_to_root_in_lowest_slot" if want == low else "dup:closest_to_root_not_in_lowest_slot")
         if c.tag == "dual_format":
-            sl = {n: c.lay["slots"][nst + k] for k, (n, _) in enumerate(c.streams) if n in ("Workbook", "Book") and c.parents[nst + k] == 0}
-            ctx.count("dual:book_only" if "Workbook" not in sl else
-                      "dual:book_first" if sl["Book"] < sl["Workbook"] else "dual:workbook_first")
+            sl = {ukey(n): c.lay["slots"][nst + k] for k, (n, _) in enumerate(c.streams)
+                  if ukey(n) in ("WORKBOOK", "BOOK") and c.parents[nst + k] == 0}
+            ctx.count("dual:book_only" if "WORKBOOK" not in sl else
+                      "dual:book_first" if sl["BOOK"] < sl["WORKBOOK"] else "dual:workbook_first")
         if w_ans is not None:
             check_w(ctx, c, w_ans, gl)
         # the Python reading of the specification against the extracted Cfb.spec_path
@@ -679,6 +719,8 @@ def run_cases(ctx, cases, rng):
             sf = sm.split(";") if sm else []
             for (a, e), x in zip(gops, sf):
                 tr = {"none": "err:notfound", "storage": None, "root": None}.get(x, x)
+                if tuple(a) in getattr(c, "nodemand", ()):
+                    continue                      # a non-ASCII letter in the other case: nothing demanded (notes/C13.md)
                 if tr != e:
                     ctx.disagreements.append({"function": "spec_path(generator vs Cfb.spec_path)", "case": gl[:20000], "impl": "(n/a)",
                                               "model": "path %r: Cfb.spec_path says %s, the generator %s" % (a, x[:100], (e or "None")[:100])})
@@ -710,7 +752,7 @@ def run_cases(ctx, cases, rng):
             dup = ""
             if k >= 0 and c.ops[k][0] in ("g", "p", "h"):
                 nm = c.ops[k][1] if c.ops[k][0] == "h" else (c.ops[k][1][-1] if c.ops[k][1] else "")
-                objs = [o for o, x in enumerate(names) if x == nm]
+                objs = [o for o, x in enumerate(names) if same_name(x, nm)]
                 if len(objs) > 1:
                     dup = " [the name is carried by %s]" % ", ".join("%s (slot %d)" % (path_of(c, o), c.lay["slots"][o]) for o in objs)
             ctx.violations.append({"case": c.line[:400000], "expected": e[:4000], "actual": g[:4000], "model": (m or "")[:4000],
@@ -892,13 +934,15 @@ def e2e_case(rng, cid, ss, shape, order, sa, sb):
     rng.shuffle(items)
     c.streams = [(n, b) for n, b, _ in items]
     c.parents = sparents + [p for _, _, p in items]
+    if rng.random() < 0.4:
+        recase_case(rng, c, p=0.7)               # WORKBOOK / BOOK / workbook ... through the public API
     c.lay = gen_layout(rng, ss, c.storages, c.streams)
     nst = len(c.storages)
     n = nst + len(c.streams)
     if rng.random() < 0.7:
         c.lay["slots"] = rng.sample(range(1, nslots_of(c)), n)
     # force the order of the two directory entries the case is about
-    idx = lambda nm, par: [nst + k for k, (x, _) in enumerate(c.streams) if x == nm and c.parents[nst + k] == par][0]
+    idx = lambda nm, par: [nst + k for k, (x, _) in enumerate(c.streams) if same_name(x, nm) and c.parents[nst + k] == par][0]
     pair = None
     if shape == "a":
         pair = (idx("Book", 0), idx("Workbook", 0)) if order == "book_first" else (idx("Workbook", 0), idx("Book", 0))
@@ -1022,7 +1066,7 @@ def run_e2e(ctx, npairs):
             if c.shape in ("c", "d", "e"):
                 nst = len(c.storages)
                 emb = [c.lay["slots"][nst + k] for k, (n, _) in enumerate(c.streams) if c.parents[nst + k] == 1]
-                rootw = [c.lay["slots"][nst + k] for k, (n, _) in enumerate(c.streams) if c.parents[nst + k] == 0 and n in ("Workbook", "Book")]
+                rootw = [c.lay["slots"][nst + k] for k, (n, _) in enumerate(c.streams) if c.parents[nst + k] == 0 and ukey(n) in ("WORKBOOK", "BOOK")]
                 ctx.count("e2e:reads_root_workbook:embedded_workbook_in_%s_slot" % ("lower" if min(emb) < min(rootw) else "higher"))
             drop(c)
         else:
@@ -1328,6 +1372,35 @@ def big_cases(ctx):
     cases.append(c)
     return cases
 
+# ------------------------------------------------------------------ corpus: the witnesses of CFB-1
+def run_name_case_witnesses(ctx):
+    """audit 2, CFB-1 (notes/audit2/repro/cfb_name_case.py): one workbook whose stream the writer called Workbook,
+    WORKBOOK, workbook, Book, BOOK, book — Apache POI reads all of them; before the fix only the first and the
+    fourth opened.  Every file must show the sheet the first one shows (public API)."""
+    wb = {"sheets": [{"name": "S1", "cells": [{"k": "number", "r": 0, "c": 0, "v": 1.0}, {"k": "number", "r": 1, "c": 2, "v": 2.5}]}]}
+    d = vlib.tmpdir(ctx)
+    names = ["Workbook", "WORKBOOK", "workbook", "WorkBook", "Book", "BOOK", "book"]
+    lines, paths = [], []
+    for k, nm in enumerate(names):
+        path = os.path.join(d, "cfb_name_%d.xls" % k)
+        with open(path, "wb") as fh:
+            fh.write(xlsgen.write_xls(wb, {"stream_name": nm}))
+        paths.append(path)
+        lines.append("nc%d\topen\txls\t%s\tsheets;range %s" % (k, path, hx("S1")))
+    impl = ctx.run_impl(lines)
+    ctx.evaluations += len(lines)
+    want = impl.get("nc0")
+    for k, nm in enumerate(names):
+        got = impl.get("nc%d" % k)
+        ctx.traces += 1
+        ctx.count("witness:stream_name_" + nm)
+        if want is None or want.startswith("openerr") or got != want:
+            ctx.violations.append({"case": lines[k], "expected": want, "actual": got, "model": None,
+                                   "what": "xls whose workbook stream is stored as %r: expected what the file with "
+                                           "'Workbook' shows (%s), got %s" % (nm, want, got)})
+            return
+        os.remove(paths[k])
+
 # ------------------------------------------------------------------ entry points
 def run(ctx):
     rng = ctx.rng
@@ -1347,6 +1420,7 @@ def run(ctx):
     # one file whose FAT really needs more than 109 sectors (7.2 MB, 512-byte sectors): the FAT
     # sectors listed in the DIFAT sector describe the end of the file
     cases = big_cases(ctx) + cases
+    run_name_case_witnesses(ctx)
     run_cases(ctx, cases, rng)
     run_malformed(ctx, malformed_cases(rng, cases, ctx.scale(300, 4000)))
     run_e2e(ctx, ctx.scale(5, 38))
